@@ -499,6 +499,10 @@ def run(ctx, prj: Project):
               "read raises UnicodeDecodeError (a ValueError) or OSError", "write_text truncates", "CPython ast")
     before = len(ctx.violations)
     decided = rule_R5_history(ctx, prj, thorough=(ctx.tier == "thorough"))
+    # the histories run every scan as a process of its own; what a scan leaves in the process (for a second scan of the same
+    # process, as a library) is read off the effect inventory
+    from .c06 import rule_no_state_left
+    rule_no_state_left(ctx, prj, "R6", ["codelimit.commands.scan:scan_command"], "the scan command (cache read, walk, report, cache write)")
     # R4 looks at the reader through the scan module's own helper; the same documents (every key of every level missing) are
     # among the scenarios of R5, which observes the command itself: where the helper is not there, R5 decides
     r5_ok = bool(decided) and not any(v.rule == "R5" for v in ctx.violations)
